@@ -5,7 +5,7 @@
    header (length field pointing to the end of that attribute) and everything before it. *)
 From Coq Require Import List Arith NArith Bool.
 From Coq.Strings Require Import Byte.
-From EZK Require Import Model.Forms8 Proofs.Forms8 Gen.Tables Lib.Bytes Model.C20 Proofs.C20 Model.C20p.
+From EZK Require Import Model.Forms9 Proofs.Forms9 Model.Forms8 Proofs.Forms8 Gen.Tables Lib.Bytes Model.C20 Proofs.C20 Model.C20p.
 Import ListNotations.
 Close Scope N_scope.
 Open Scope nat_scope.
@@ -122,3 +122,14 @@ Proof. exact long_enough_iff. Qed.
 
 Theorem C20_header_only_too_short_refuted : long_enough_form false stun_header_len = false.
 Proof. exact header_too_short_otherwise. Qed.
+
+(* "integrity ... checks accept exactly the untampered messages": the attribute value must BE the digest - same length, same bytes; a
+   comparison that zips the two accepts the empty value and every prefix of the digest *)
+Theorem C20_integrity_compare_guard : integrity_compares_whole_value = true.
+Proof. reflexivity. Qed.
+
+Theorem C20_integrity_value_is_the_digest : integrity_compares_whole_value = true -> forall digest value, digest_matches digest value = true <-> digest = value.
+Proof. exact digest_here. Qed.
+
+Theorem C20_zip_compare_refuted : forall digest k, digest_matches_form false digest (firstn k digest) = true.
+Proof. exact zip_accepts_prefix. Qed.
